@@ -1,6 +1,7 @@
 package main
 
 import (
+	"runtime"
 	"crypto/sha1"
 	"encoding/hex"
 	"fmt"
@@ -185,6 +186,10 @@ func closureWrites(fn *ssa.Function, a *ssa.Alloc) bool {
 // havocAllKeep forgets all memory except the function-private cells, which
 // keep their values (optionally skipping cells the loop itself writes).
 func (x *Exec) havocAllKeep(st *State, skip map[*ssa.Alloc]bool) {
+	if os.Getenv("GOVC_DEBUG_KEEP") != "" {
+		_, f, l, _ := runtime.Caller(1)
+		fmt.Fprintf(os.Stderr, "havocAllKeep from %s:%d\n", f, l)
+	}
 	type saved struct {
 		c   privCell
 		val string
